@@ -19,6 +19,7 @@ RULE = ('(threads) two started layers, real threads, sys.setswitchinterval(10 us
         'schedule; the extracted Coq merge (Model/Threaded.run_sched) of the per-thread lists under that schedule must equal what the peer '
         'delivered; independently: every payload exactly once, unmodified, per-thread order kept, no error on either side, all threads joined. '
         '(duplex) both peers stream 60-70 Consecutive Frames at the same time with stmin 20 ms and 1 s timeouts, read_timeout 5-50 ms. '
+        '(noisy_bus) one unrelated frame every 0.2 ms on the bus, 150 sends one after the other: each reaches the peer within 2 s (observed: milliseconds). '
         '(logic) random operation sequences on the logic layer compared line by line with the extracted model (the worker loop is '
         'process() in a loop).')
 ASSUME = ['queue.Queue is a linearizable FIFO; protocol state is only touched by the worker thread; thread schedules are sampled, not enumerated']
@@ -307,6 +308,45 @@ def duplex_run(part, rng, campaign):
         part.violation('oracle', campaign, fails[0][0], fails[0][1], {'campaign': 'duplex', 'n': n})
 
 
+def noisy_bus_run(part, rng, campaign, rounds):
+    """continuous unrelated bus traffic (one foreign frame every 0.2 ms, far faster than read_timeout): the worker's blocking read
+    always has a frame to return, only the wake-up marker of send() makes it look at the transmit queue - every send must still
+    reach the peer promptly"""
+    part.d['evaluations'] += 1
+    net = Net(rng, 'queue-blocking', False, 0.05)
+    stop = threading.Event()
+
+    def noise():
+        while not stop.is_set():
+            net.noise()
+            time.sleep(0.0002)
+    fails = []
+    worst = 0.0
+    try:
+        net.A.start(); net.B.start()
+        tn = threading.Thread(target=noise, daemon=True)
+        tn.start()
+        for k in range(rounds):
+            t0 = time.time()
+            pay = bytes([k & 0xFF, 1, 2, 3])
+            net.tag.v = (0, k)
+            net.A.send(pay)
+            d = net.B.recv(block=True, timeout=2.0)
+            worst = max(worst, time.time() - t0)
+            if d is None or bytes(d) != pay:
+                fails.append(('C13:send-starved-by-bus-traffic', 'send %d of %d under continuous unrelated bus traffic did not reach the peer within 2 s '
+                              '(got %s; slowest delivery before: %.3f s; errors A=%s B=%s)' % (k, rounds, None if d is None else bytes(d).hex(), worst, net.errors[0][:3], net.errors[1][:3])))
+                break
+            time.sleep(rng.random() * 0.001)
+    finally:
+        stop.set()
+        time.sleep(0.02)
+        net.close()
+    part.hist('noisy_bus', 'worst<%s' % ('10ms' if worst < 0.01 else '100ms' if worst < 0.1 else '2s'))
+    if fails:
+        part.violation('oracle', campaign, fails[0][0], fails[0][1], {'campaign': 'noisy_bus', 'rounds': rounds})
+
+
 def run_shard(campaign, shard, nshards, seed, tier):
     part = Part()
     rng = random.Random('%s/%s/%s' % (seed, campaign, shard))
@@ -319,6 +359,9 @@ def run_shard(campaign, shard, nshards, seed, tier):
     elif campaign == 'duplex':
         for _ in range((16 if quick else 160) // nshards):
             duplex_run(part, rng, campaign)
+    elif campaign == 'noisy_bus':
+        for _ in range(1 if quick else 5):
+            noisy_bus_run(part, rng, campaign, 150)
     else:
         for _ in range((40 if quick else 1200) // nshards + 1):
             threaded_run(part, m, rng, campaign, campaign)
@@ -330,4 +373,5 @@ def run(ctx):
     for t in ('queue-blocking', 'queue-legacy', 'canstack', 'notifier'):
         run_sharded(ctx, 'C13', t, nshards=8)
     run_sharded(ctx, 'C13', 'duplex', nshards=16)
+    run_sharded(ctx, 'C13', 'noisy_bus', nshards=4)
     return RULE, ASSUME
